@@ -78,10 +78,13 @@ class ModifiedHalfNormal(Distribution):
         return (self.alpha - 1)/val - 2*self.beta*val + self.gamma
 
     def _gradient(self, val, *args, **kwargs):
-        if hasattr(self.alpha, '__iter__'):
-            return np.array([self._gradient_scalar(v) for v in val])
-        else:
-            return np.array([self.dim*[self._gradient_scalar(v)] for v in val])
+        val = np.asarray(val, dtype=float)
+        # Entry i of the gradient is the derivative w.r.t. val[i] (nan outside the support val[i] > 0)
+        with np.errstate(divide='ignore', invalid='ignore'):
+            grad = np.where(val <= 0.0, np.nan, (self.alpha - 1)/val - 2*self.beta*val + self.gamma)
+        if self.dim == 1: # scalar distribution: one row per evaluation point
+            return grad.reshape(-1, 1)
+        return grad
     
     def _MHN_sample_gamma_proposal(self, alpha, beta, gamma, rng, delta=None):
         """
